@@ -23,6 +23,14 @@ class Native:
     def close(self):
         shutil.rmtree(self.dir, ignore_errors=True)
 
+    def available(self, job):
+        """False if the runner job had to be compiled out because the helper it calls changed its signature (prepare.py)"""
+        import json
+        f = os.path.join(self.world.build, 'unavailable_jobs.json')
+        if not os.path.exists(f):
+            return True
+        return ('no_%s_job' % job) not in json.load(open(f))
+
     def file(self, text, name=None):
         self.n += 1
         p = os.path.join(self.dir, name or ('f%d.sol' % self.n))
